@@ -816,3 +816,48 @@ class NextFuture:
 @T.trait("StreamExt", "next", r".")
 def _stream_next2(I, a, d):
     return NextFuture(a[0])
+
+
+def _async_io_copy(I, a, d):
+    r, w_ = a[0], a[1]
+
+    def go(I2, cx):
+        total = 0
+        for _ in range(8):
+            probe = BufObj("array", SBytes((sb.Fill(0, 8192),)))
+            dst = MutBytesRef(probe, 0, 8192)
+            tgt = peel(r)
+            if isinstance(tgt, AsyncFileObj):
+                try:
+                    data = F.op_read_all(I2, tgt.f)
+                except FsErr as e:
+                    return READY(ERR(io_err(e.kind, e.injected)))
+                n = data.length()
+                last = True
+            else:
+                p = poll_read_any(I2, r, cx, dst)
+                if p.vname == "Pending":
+                    raise Inconclusive("Pending inside io::copy")
+                res = p.fields[0]
+                if res.vname == "Err":
+                    return READY(res)
+                n = res.fields[0]
+                data = sb.slice_(probe.sb, 0, n, I2.w)
+                last = False
+            empty = I2.w.branch(n == 0, "aio-copy-eof") if is_sym(n) else n == 0
+            if empty:
+                return READY(OK(total))
+            wf = WriteAllFut(w_, data)
+            pr = wf.poll(I2, cx)
+            if pr.vname == "Pending":
+                raise Inconclusive("Pending inside io::copy")
+            if pr.fields[0].vname == "Err":
+                return READY(pr.fields[0])
+            total = _addv(total, n)
+            if last:
+                return READY(OK(total))
+        raise Hang("io::copy does not terminate")
+    return PollFnFut(go)
+
+
+T.path("async_std::io::copy", "futures::io::copy", "tokio::io::copy", "futures_util::io::copy")(_async_io_copy)
